@@ -8,12 +8,12 @@ PROP = {
     "assumptions": ASSUME_COMMON + [
         "Spec.v (reference semantics: priority-ordered result lists) is the definition of 'leftmost priority-ordered backtracking search'; leg c01-sem compares it (on the harness's own elaboration of each AST, which never saw the parser, and on regexp2's exported tree) with FindRunesMatchStartingAt on every string up to a bound and every start offset",
         "Writer.v must reproduce Code.Codes word for word (leg c01-writer) and VM.v, run on the real code words, must reproduce the interpreter's result, captures, final position, error kind and stack capacity (leg c13-vm)",
-        "not yet proved: compile_correct (VM run of Writer.compile t = Spec.attempt t); until then the link Spec -> engine is the three sampled legs",
+        "compile_correct is proved for every tree constructor except balancing captures, for the dense writer configuration (no capture renumbering map, full program) and under tlen <= 2^31-1 and semantic fuel <= 2^31-1 (the engine's own loop counters); it says: WHEN the interpreter model returns, it returns Spec.attempt's position and captures. That it returns (enough steps, no stack-limit error) is C13's business. Outside those conditions the link Spec -> engine is the three sampled legs",
     ],
 }
 TEXT = {
-    "text": "Theorems over the reference semantics: C01_search_is_head_of_priority_list (the executable continuation-passing search returns exactly the head of the priority-ordered result list, for every tree, state, continuation), C01_find_cps_agrees, C01_find_is_leftmost (find returns the attempt at the first position in scan order at which an attempt succeeds, and None only when every position fails; both directions, prevlen bump). The reference semantics, the writer model and the interpreter model are each tied to the code on every run: ~160k (pattern,input,offset) cases against the engine, ~3k programs compared word for word, ~15-50k interpreter runs on the real code words.",
+    "text": "Theorems over the reference semantics: C01_search_is_head_of_priority_list (the executable continuation-passing search returns exactly the head of the priority-ordered result list, for every tree, state, continuation), C01_find_cps_agrees, C01_find_is_leftmost (find returns the attempt at the first position in scan order at which an attempt succeeds, and None only when every position fails; both directions, prevlen bump). C01_compile_correct_partial / _top_partial / _exec_partial: for every tree built from all node kinds except balancing captures, every text, every start position, the interpreter model (VM.v, real finite stacks, any stack limit) run on the program the writer model emits ends at Stop with exactly the position and captures of Spec.attempt, or with group 0 unset when Spec.attempt fails (invariant: the frames a node leaves on the backtracking stack denote the tail of its priority-ordered result list). The reference semantics, the writer model and the interpreter model are each tied to the code on every run: ~160k (pattern,input,offset) cases against the engine, ~3k programs compared word for word, ~15-50k interpreter runs on the real code words.",
     "design_ref": "DESIGN.md §4 C01",
-    "note": "Coq kernel, no axioms. Partial: the theorem compile_correct (interpreter ∘ writer = reference semantics) is not proved yet; that link is sampled by legs c01-sem / c01-writer / c13-vm. Fragment of the property (non-nullable quantified bodies, no balancing groups) is the generator's fragment.",
+    "note": "Coq kernel, no axioms. Partial: compile_correct (interpreter ∘ writer = reference semantics) excludes balancing captures, sparse capture maps and the quick program, and does not claim termination of the interpreter; those parts of the link are sampled by legs c01-sem / c01-writer / c13-vm. Fragment of the property (non-nullable quantified bodies, no balancing groups) is the generator's fragment.",
     "technique": "Coq proof over executable reference semantics + three differential correspondence legs via extraction",
 }
